@@ -13,6 +13,9 @@ def main(tier, replay):
                   'yield_reinvocations': 'N_states+1 with unwinding assertion'}
     run.assumptions = ['malloc never fails', 'hooks are pure observers', 'longer chunks follow by the induction argument of DESIGN §4 C02 (not a solver claim)']
     jobs = l3check.jobs_for(tier, ('c02',))
+    # programs marked `// verif: no-multibyte` (heavy 64-bit arithmetic over several bytes) are left to the one-step checks and C14 in the quick tier
+    if tier == 'quick':
+        jobs = [j for j in jobs if '// verif: no-multibyte' not in j['src'] and 'gtfs-realtime' not in j['label']]   # gtfs: 64-bit shifts by symbolic amounts (thorough tier only)
     for j in jobs:
         j['L'] = L
         j['state_budget'] = (24, 8) if tier == 'quick' else (10 ** 6, 60)
